@@ -116,9 +116,11 @@ Print Assumptions C08_arraybucket_remove_transitions.
 (* ------------------------------------------------------------------ the std-style wrapper *)
 (* operator== (as coded: size test, then per left key with values: find, count, is_permutation) is EXACTLY multiset
    equality of the (key, value) pairs, for any two containers with distinct keys and consistent counts -- value-less
-   keys left by erase_if on either side are invisible. *)
+   keys left by erase_if on either side are invisible.  plain_keys: key_eq-equivalent keys are == (all tags 0), the
+   situation of std::equal_to; the additional `ref.key == rightKey` test of fix 4339d66 is part of w_eq. *)
 Theorem C08_wrapper_eq_iff_pairs_permutation :
-  forall l r : mm, WInv l -> WInv r -> (w_eq l r = true <-> Permutation (pairs l) (pairs r)).
+  forall l r : mm, WInv l -> WInv r -> plain_keys (fst l) -> plain_keys (fst r) ->
+    (w_eq l r = true <-> Permutation (pairs l) (pairs r)).
 Proof. exact w_eq_iff_pairs_permutation. Qed.
 Print Assumptions C08_wrapper_eq_iff_pairs_permutation.
 
@@ -127,6 +129,12 @@ Theorem C08_wrapper_inv_from_history :
   forall (M : Z) (m : mm), Inv M m -> WInv m.
 Proof. exact inv_winv. Qed.
 Print Assumptions C08_wrapper_inv_from_history.
+
+(* ... and plain keys stay plain under every HashMultiMap operation the wrapper issues (tags 0) and under copies *)
+Theorem C08_wrapper_plain_keys_preserved :
+  forall (M : Z) (m : mm) (o : op), plain_keys (fst m) -> op_plain o -> plain_keys (fst (step1 M m o)).
+Proof. exact plain_step1. Qed.
+Print Assumptions C08_wrapper_plain_keys_preserved.
 
 (* count(k) = number of pairs with key k; hence it depends only on the multiset of pairs *)
 Theorem C08_wrapper_count_is_pair_count :
